@@ -112,6 +112,8 @@ def _edit(kind):
         # the change tags the incremental run of the program computed are what is returned: a NoChange tag on the returned
         # retdiff must come from the program run (which is sound by C09), never from wholesale re-tagging
         prog_rd = SL.prog_retdiff(st, pu, tu, sites.has, sites.val)
+        # every leaf of the returned retdiff carries a change tag (the GFI's Retdiff type; callers branch on the tags)
+        E.prove(f"{pid}.StaticGenerativeFunction.edit_{kind}.retdiff_is_a_full_diff_tree", T.is_diff_tree(rd))
         E.prove(f"C08.StaticGenerativeFunction.edit_{kind}.returned_tags_are_the_program_run_tags",
                 E.Implies(T.all_nochange(rd), T.d_nc_all(prog_rd)))
         E.prove(f"C08.StaticGenerativeFunction.edit_{kind}.retdiff_primal_is_new_retval",
